@@ -807,7 +807,7 @@ def run(env: Env) -> Outcome:
     if env.replay is not None:
         cases.append(env.replay["payload"]["case"])
     cases += load_corpus()
-    n = env.budget(3000, 40000)
+    n = env.budget(1500, 40000)
     for _ in range(n):
         cases.append(gen_merge_case(env.rng))
         cases.append(gen_dsp_case(env.rng))
